@@ -154,12 +154,14 @@ pub fn get_pentagon(cell: &A5Cell) -> Result<PentagonShape, String> {
 
 /// Convert A5 cell ID to lon/lat coordinates of cell center
 pub fn cell_to_lonlat(cell: u64) -> Result<LonLat, String> {
-    // WORLD_CELL represents the entire world, return (0, 0) as a reasonable default
-    if cell == WORLD_CELL {
+    let cell_data = deserialize(cell)?;
+
+    // WORLD_CELL (and every bit pattern without a resolution marker, which decodes to it) represents
+    // the entire world, return (0, 0) as a reasonable default
+    if cell_data.resolution == -1 {
         return Ok(LonLat::new(0.0, 0.0));
     }
 
-    let cell_data = deserialize(cell)?;
     let pentagon = get_pentagon(&cell_data)?;
     let dodecahedron = DodecahedronProjection::get_thread_local();
     let point = dodecahedron.inverse(pentagon.get_center(), cell_data.origin_id)?;
@@ -188,13 +190,14 @@ pub fn cell_to_boundary(
     cell_id: u64,
     options: Option<CellToBoundaryOptions>,
 ) -> Result<Vec<LonLat>, String> {
-    // WORLD_CELL represents the entire world and is unbounded
-    if cell_id == WORLD_CELL {
-        return Ok(Vec::new());
-    }
-
     let opts = options.unwrap_or_default();
     let cell_data = deserialize(cell_id)?;
+
+    // WORLD_CELL (and every bit pattern without a resolution marker, which decodes to it) represents
+    // the entire world and is unbounded
+    if cell_data.resolution == -1 {
+        return Ok(Vec::new());
+    }
 
     let segments = opts
         .segments
